@@ -417,7 +417,11 @@ class StmtMixin:
         self.qnames.append(_names_of(g.target))
         try:
             sub.pc.append(guard)
-            conds = [z3bool(self.cond(c, sub)) for c in g.ifs]
+            conds = []
+            for c in g.ifs:
+                cv = z3bool(self.cond(c, sub))
+                conds.append(cv)
+                sub.pc.append(cv)  # the filter guards what follows (later filters, the element / key / value expression)
             if kind == "dict":
                 ke = self.eval(node.key, sub)
                 ve = self.eval(node.value, sub)
